@@ -137,3 +137,21 @@ Fixpoint tcheck_all_from (i : N) (cs : list tcase) : list (N * N) :=
 Definition tcheck_all := tcheck_all_from 0%N.
 Definition operations_seen_waiting_for_the_package_mutex (cs : list tcase) : N :=
   N.of_nat (length (filter (fun c => snd c) cs)).
+
+(* ---- fourth comparison: the lock of an instance.  The harness takes the lock of the instance `o` through its
+   exported Lock() (what every slot access does) and lets another goroutine evaluate a slot operation on `o`.
+     0 ok;  1 the operation waited although it need not (not synchronized, or no slot is touched);
+     2 a slot operation on a SYNCHRONIZED instance did not wait: it reads or writes the slot map while another routine
+       may be inside a write (TableProofs.unlocked_slot_read_overlaps_write_refuted): the operation is the failing input. *)
+Definition icase := (iop * bool * bool)%type.        (* operation, synchronized, waited *)
+Definition icheck_case (c : icase) : N :=
+  let '(o, sy, waited) := c in
+  if must_wait o sy then (if waited then 0%N else 2%N) else (if waited then 1%N else 0%N).
+Fixpoint icheck_all_from (i : N) (cs : list icase) : list (N * N) :=
+  match cs with
+  | [] => []
+  | c :: cs' => let r := icheck_case c in (if N.eqb r 0 then [] else [(i, r)]) ++ icheck_all_from (N.succ i) cs'
+  end.
+Definition icheck_all := icheck_all_from 0%N.
+Definition slot_operations_seen_waiting_for_the_instance_lock (cs : list icase) : N :=
+  N.of_nat (length (filter (fun c => snd c) cs)).
